@@ -1,6 +1,9 @@
 import Mdsort.Proofs.World
 import Mdsort.Proofs.WorldFrameMain
 import Mdsort.Proofs.WorldStdinExample
+import Mdsort.Proofs.EvalErrProp
+import Mdsort.Proofs.EvalAtt
+import Mdsort.Proofs.ExecStatus
 import Mdsort.Proofs.EvalPFail
 
 /-!
@@ -257,6 +260,332 @@ example (st : ExecSt) : execOne Proofs.StdinExample.env0 { ty := .reject, lno :=
     Prog.ret ({ st with reject := true }, false) :=
   C04_reject_no_call _ _ _ rfl
 
+/-! ## An evaluation error reaches the root of the rule tree
+
+"Any ... matching ... error yields a non-zero status": `C04_message_error_iff` reduces the error bit of
+a message to the verdict of `Model.eval` on the rule tree of the block; the statements below are about
+that verdict.  `Proofs/EvalErrProp.lean`: an *evaluation point* `Proofs.EvalPt` is an expression evaluated
+on a message (regarded as part `part`) from a state; `Proofs.EvalStep env root a b` says that evaluating `a`
+evaluates `b` directly (the second operand of `and` only after the first matched, the right-hand side of
+a rule only after its condition matched, part `i` of an `attachment` condition only after the parts
+before it said *no match*, part `i` of an attachment block only after the block ran without error on the
+parts before it), `Proofs.Evaluated` is its reflexive-transitive closure. -/
+
+/-- **An error of anything that is actually evaluated is the result of the root** - for EVERY
+expression, message, state and environment: no grammar domain, no hypothesis on pending `pass` /
+`break` entries, attachment conditions and attachment blocks included.  (In `expr_eval_block` this is
+the early `if (ev == EXPR_ERROR) return EXPR_ERROR;`: without it a pending `pass` turns the error of a
+later rule into *match* / *no match*.) -/
+theorem C04_eval_error_reaches_root (env : Env) (root : Msg) (a b : Proofs.EvalPt)
+    (h : Proofs.Evaluated env root a b) (hb : (b.res env root).1 = .error) : (a.res env root).1 = .error :=
+  Proofs.evaluated_error h hb
+
+/-- ... and conversely an error result has an origin among the evaluated points (`Proofs.Origin`: its
+result is an error although nothing it evaluates directly is an error): the verdict *error* is never made
+up by a composite node. -/
+theorem C04_eval_error_iff_origin (env : Env) (root : Msg) (a : Proofs.EvalPt) :
+    (a.res env root).1 = .error ↔ ∃ b, Proofs.Evaluated env root a b ∧ Proofs.Origin env root b :=
+  ⟨Proofs.error_origin (sizeOf a.e) a (Nat.le_refl _), fun ⟨_, hb, ho⟩ => Proofs.evaluated_error hb ho.1⟩
+
+/-- What an origin is (`Proofs.OriginShape`): a leaf - a matcher (`body` on an undecodable body, `date`
+on an unparsable date, `command` that cannot be run, ...) or an action (invalid flag letter, over-long
+destination) -, a `match` node whose sentinel entry cannot be appended, or an `attachment` condition /
+attachment block on a message whose parts cannot be had (malformed multipart, nesting beyond the limit);
+never a block, `and`, `or` or `!` node. -/
+theorem C04_eval_error_origin_shape (env : Env) (root : Msg) (b : Proofs.EvalPt) (h : Proofs.Origin env root b) :
+    Proofs.OriginShape env b :=
+  Proofs.origin_shape h
+
+/-! Non-vacuity: the shape of the rule tree for which the early return matters.
+```
+match all label "x" pass
+match command "c" move "/e"
+```
+in an environment in which no command can be run (`command` = -1).  The `command` matcher is evaluated
+(after the first rule matched, collected its label and `pass`-ed) and is an error; the theorem gives the
+error of the root although a `pass` and an action are pending. -/
+
+def errEnv : Env where
+  rx := fun p _ => if p.src == [49] then .ok [some (0, 0)] else .nomatch
+  command := fun _ => -1
+  isDir := fun _ => false
+  now := 0
+  strptime := fun _ => none
+  zoneName := fun _ => none
+  fileTime := fun _ => none
+  dryrun := false
+  path := [47, 109, 47, 110, 101, 119, 47, 49]
+
+def errMsg : Msg := { headers := [], body := [] }
+
+def errRule1 : Expr := .mtch 2 (.all 2) (.and 2 (.label 2 [[120]]) (.pass 2))
+def errRule2 : Expr := .mtch 3 (.command 3 [[99]]) (.move 3 [47, 101])
+def errTree : Expr := .block 1 (.or 1 errRule1 errRule2)
+
+def errSt0 : St := { ml := [], flags := MFlags.empty }
+/-- State after the first rule: its `match` sentinel, the label and the PASS entry. -/
+def errSt1 : St := (eval errEnv errMsg errRule1 0 errMsg errSt0).2
+/-- The point at which the `command` matcher is evaluated. -/
+def errPt : Proofs.EvalPt :=
+  ⟨.command 3 [[99]], 0, errMsg,
+    { errSt1 with ml := (matchesAppend errEnv errSt1.ml { ty := .mtch, lno := 3, part := 0 }).1 }⟩
+
+theorem err_rule1 : (eval errEnv errMsg errRule1 0 errMsg errSt0).1 = .nomatch ∧
+    errSt1.ml.map (fun x => (x.ty, x.lno)) = [(.mtch, 2), (.label, 2), (.pass, 2)] := by
+  simp only [errSt1, errRule1, errSt0, eval]
+  decide +kernel
+
+theorem err_evaluated : Proofs.Evaluated errEnv errMsg ⟨errTree, 0, errMsg, errSt0⟩ errPt :=
+  .step _ _ _ (.block 1 _ 0 errMsg errSt0)
+    (.step _ _ _ (Proofs.EvalStep.orR' 1 errRule1 errRule2 0 errMsg errSt0 err_rule1.1)
+      (.step _ _ _ (Proofs.EvalStep.mtchC' 3 _ _ 0 errMsg errSt1 (by simp only [errSt1, errRule1, errSt0, eval]; decide +kernel))
+        (.refl _)))
+
+theorem err_command : (errPt.res errEnv errMsg).1 = .error := by
+  simp only [Proofs.EvalPt.res, errPt, errSt1, errRule1, errSt0, eval]
+  decide +kernel
+
+example : (eval errEnv errMsg errTree 0 errMsg errSt0).1 = .error :=
+  C04_eval_error_reaches_root errEnv errMsg ⟨errTree, 0, errMsg, errSt0⟩ errPt err_evaluated err_command
+
+/-- The `command` point is an origin, and has the shape of one (a leaf). -/
+example : Proofs.OriginShape errEnv errPt := trivial
+
+/-! ### With the documented semantics
+
+`Spec.evalBlockA` (Spec/RulesAtt.lean) is the documented reading of mdsort.conf(5): rules in order, the
+first condition that cannot be evaluated is an error of the whole evaluation.  Whenever it says *error*
+the evaluator says *error* - on the domain and outside the two recorded deviation classes of
+`C03_eval_refines_spec_att` (`crosses` = F11, `leaks` = F24), of which this is a corollary.  Both
+hypotheses are needed (witnesses below): with a nested block that completes while a pass is pending, or
+with actions leaked by an attachment block that matched on no part, `expr_eval_block` reports a MATCH
+where the documented evaluation goes on to the next rule - whose condition, an error, is then never
+evaluated.  That is a deviation in WHAT is evaluated (known findings F11 / F24 of C03), not an error that
+is lost: `C04_eval_error_reaches_root` has no such hypothesis. -/
+
+/-- The documented evaluation says *error* (a condition that is evaluated cannot be evaluated, an action
+is invalid, a multipart is malformed) ⇒ the evaluator's verdict is *error*. -/
+theorem C04_eval_error_propagates (env : Env) (root : Msg) (f : MFlags) (e : Expr) (rules : List Spec.RuleA)
+    (hp : Spec.parseBlockA e = some rules) (hd : Proofs.InDomainA env e = true)
+    (hc : (Spec.evalBlockA (Proofs.partCtx env root f) Proofs.actionErr root rules).crosses = false)
+    (hl : (Spec.evalBlockA (Proofs.partCtx env root f) Proofs.actionErr root rules).leaks = false)
+    (herr : (Spec.evalBlockA (Proofs.partCtx env root f) Proofs.actionErr root rules).res = .error) :
+    (eval env root e 0 root { ml := [], flags := f }).1 = .error := by
+  have h := (Proofs.att_eval_refines_spec env root f e rules hp hd hc hl).1
+  rw [herr] at h
+  exact h
+
+/-- The statement without the two hypotheses ... -/
+def C04_eval_error_propagates_unrestricted : Prop :=
+  ∀ (env : Env) (root : Msg) (f : MFlags) (e : Expr) (rules : List Spec.RuleA),
+    Spec.parseBlockA e = some rules → Proofs.InDomainA env e = true →
+    (Spec.evalBlockA (Proofs.partCtx env root f) Proofs.actionErr root rules).res = .error →
+    (eval env root e 0 root { ml := [], flags := f }).1 = .error
+
+def errRules : List Spec.RuleA :=
+  [.acts 2 (.all 2) [.plain (.label 2 [[120]])] .pass,
+   .acts 3 (.command 3 [[99]]) [.plain (.move 3 [47, 101])] .none]
+
+abbrev errCtx := Proofs.partCtx errEnv errMsg MFlags.empty
+
+theorem err_v_all (k l : Nat) (m : Msg) : errCtx.v k m (.all l) = .match := by
+  simp only [errCtx, Proofs.partCtx, eval]
+theorem err_v_command : errCtx.v 0 errMsg (.command 3 [[99]]) = .error := by
+  simp only [errCtx, Proofs.partCtx, eval]
+  decide +kernel
+theorem err_v_header : errCtx.v 0 errMsg (.header 5 [[88]] { src := [51] }) = .nomatch := by
+  simp only [errCtx, Proofs.partCtx, eval]
+  decide +kernel
+theorem err_getAtt : getAttachments errMsg = some [] := by decide +kernel
+theorem err_parts : errCtx.parts errMsg = some [] := err_getAtt
+
+/-- Non-vacuity of `C04_eval_error_propagates`: the two-rule tree above is in the domain, the documented
+evaluation is an error without any recorded deviation, and the theorem gives the evaluator's error. -/
+theorem C04_eval_error_propagates_nonvacuous :
+    Spec.parseBlockA errTree = some errRules ∧ Proofs.InDomainA errEnv errTree = true ∧
+    Spec.evalBlockA errCtx Proofs.actionErr errMsg errRules = { res := .error, actions := [], crosses := false, leaks := false } ∧
+    (eval errEnv errMsg errTree 0 errMsg { ml := [], flags := MFlags.empty }).1 = .error := by
+  have hp : Spec.parseBlockA errTree = some errRules := by
+    simp [errTree, errRule1, errRule2, errRules, Spec.parseBlockA, Spec.parseRulesA, Spec.parseRuleA, Spec.parseChainA,
+      Spec.parseActA, Spec.isCond, Spec.isCtlExpr, Spec.isActionExpr]
+  have hd : Proofs.InDomainA errEnv errTree = true := by decide +kernel
+  have ho : Spec.evalBlockA errCtx Proofs.actionErr errMsg errRules =
+      { res := .error, actions := [], crosses := false, leaks := false } := by
+    simp [errRules, Spec.evalBlockA, Spec.evalRulesA, Spec.evalActsA, Spec.condValA, err_v_all, err_v_command,
+      Proofs.actionErr]
+  exact ⟨hp, hd, ho, C04_eval_error_propagates errEnv errMsg MFlags.empty errTree errRules hp hd (by rw [ho]) (by rw [ho])
+    (by rw [ho])⟩
+
+/-! The two hypotheses are needed.  (1) `crosses`:
+```
+match all label "x" pass
+match all { match header "X" /3/ move "/d" }
+match command "c" move "/e"
+```
+the nested block matches nothing; documented: go on to the third rule, whose condition is an error.
+`expr_eval_block` finds the PASS entry of the root block at the end of the nested block and reports a
+match (the label is pending): the third rule is never evaluated.  (2) `leaks`:
+```
+match all { match all label "x" attachment { match body /3/ exec "c" }
+            match all pass }
+match command "c" move "/e"
+```
+the first rule of the nested block stops at its attachment block (no part) but its label stays in the
+match list; at the end of the nested block the PASS entry of the second rule is found and - because of
+the leaked label - a match is reported; documented: the nested block collected nothing, no match, go on
+to the rule whose condition is an error. -/
+
+def errTreeCross : Expr :=
+  .block 1 (.or 1 (.or 1 errRule1
+    (.mtch 4 (.all 4) (.block 4 (.mtch 5 (.header 5 [[88]] { src := [51] }) (.move 5 [47, 100])))))
+    errRule2)
+
+def errRulesCross : List Spec.RuleA :=
+  [.acts 2 (.all 2) [.plain (.label 2 [[120]])] .pass,
+   .blk 4 (.all 4) [.acts 5 (.header 5 [[88]] { src := [51] }) [.plain (.move 5 [47, 100])] .none],
+   .acts 3 (.command 3 [[99]]) [.plain (.move 3 [47, 101])] .none]
+
+theorem C04_eval_error_crosses_needed :
+    Spec.parseBlockA errTreeCross = some errRulesCross ∧ Proofs.InDomainA errEnv errTreeCross = true ∧
+    Spec.evalBlockA errCtx Proofs.actionErr errMsg errRulesCross =
+      { res := .error, actions := [], crosses := true, leaks := false } ∧
+    (eval errEnv errMsg errTreeCross 0 errMsg { ml := [], flags := MFlags.empty }).1 = .match := by
+  refine ⟨?_, by decide +kernel, ?_, ?_⟩
+  · simp [errTreeCross, errRule1, errRule2, errRulesCross, Spec.parseBlockA, Spec.parseRulesA, Spec.parseRuleA,
+      Spec.parseChainA, Spec.parseActA, Spec.isCond, Spec.isCtlExpr, Spec.isActionExpr]
+  · simp [errRulesCross, Spec.evalBlockA, Spec.evalRulesA, Spec.evalActsA, Spec.condValA, err_v_all, err_v_command,
+      err_v_header, Proofs.actionErr]
+  · simp only [errTreeCross, errRule1, errRule2, eval]
+    decide +kernel
+
+def errTreeLeak : Expr :=
+  .block 1 (.or 1
+    (.mtch 4 (.all 4) (.block 4 (.or 4
+      (.mtch 5 (.all 5) (.and 5 (.label 5 [[120]])
+        (.attBlock 5 (.block 5 (.mtch 6 (.body 6 { src := [51] }) (.exec 6 false false [[99]]))))))
+      (.mtch 7 (.all 7) (.pass 7)))))
+    errRule2)
+
+def errRulesLeak : List Spec.RuleA :=
+  [.blk 4 (.all 4)
+     [.acts 5 (.all 5) [.plain (.label 5 [[120]]),
+        .att 5 [.acts 6 (.body 6 { src := [51] }) [.plain (.exec 6 false false [[99]])] .none]] .none,
+      .acts 7 (.all 7) [] .pass],
+   .acts 3 (.command 3 [[99]]) [.plain (.move 3 [47, 101])] .none]
+
+theorem C04_eval_error_leaks_needed :
+    Spec.parseBlockA errTreeLeak = some errRulesLeak ∧ Proofs.InDomainA errEnv errTreeLeak = true ∧
+    Spec.evalBlockA errCtx Proofs.actionErr errMsg errRulesLeak =
+      { res := .error, actions := [], crosses := false, leaks := true } ∧
+    (eval errEnv errMsg errTreeLeak 0 errMsg { ml := [], flags := MFlags.empty }).1 = .match := by
+  refine ⟨?_, by decide +kernel, ?_, ?_⟩
+  · simp [errTreeLeak, errRule2, errRulesLeak, Spec.parseBlockA, Spec.parseRulesA, Spec.parseRuleA,
+      Spec.parseChainA, Spec.parseActA, Spec.isCond, Spec.isCtlExpr, Spec.isActionExpr]
+  · simp [errRulesLeak, Spec.evalBlockA, Spec.evalRulesA, Spec.evalActsA, Spec.forParts, Spec.condValA, err_v_all,
+      err_v_command, err_parts, Proofs.actionErr]
+  · simp only [errTreeLeak, errRule2, eval, err_getAtt, eval.loopB]
+    decide +kernel
+
+/-- ... is false for the evaluator as it is (each of the two witnesses refutes it). -/
+theorem C04_eval_error_propagates_unrestricted_false : ¬ C04_eval_error_propagates_unrestricted := by
+  intro h
+  obtain ⟨hp, hd, ho, hm⟩ := C04_eval_error_crosses_needed
+  have := h errEnv errMsg MFlags.empty errTreeCross errRulesCross hp hd (by rw [ho])
+  rw [hm] at this
+  cases this
+
+/-! ## Command errors: the status of a child (anchor "command/exec exit status mapping")
+
+`Proofs.BadChild tr`: somewhere in the trace `tr` a `fork` returned no pid, or a `waitpid` failed or reported a wait status
+other than "exited with 0" - i.e. a non-zero exit code (127 included) or death by a signal
+(`Proofs.waitKind`, `Model.execStatus`: Props/C13.lean `C13_exec_status_mapping`). -/
+
+/-- **Every non-zero or signalled status of an `exec` action is an error of the message, and no later action of that message
+issues a call.**  Arbitrary call results; with or without `stdin` / `stdin body`; for the message or a part inside an
+`attachment { }` block: if, while the entry is executed, `fork` fails, `waitpid` fails or the child did anything but exit with
+0, then the entry reports an error, `matches_exec` reports an error for the message, and the calls of the whole list are the
+same whatever follows the entry (so they are the calls of the list that ends with it). -/
+theorem C04_exec_status_is_error (env : PEnv) (mh : Match) (rest rest' : MatchList) (st : ExecSt) (orc : Nat → Call → Res)
+    (hty : mh.ty = .exec) (hb : Proofs.BadChild (runOracle orc (execOne env mh st) 0 []).2) :
+    (runOracle orc (execOne env mh st) 0 []).1.2 = true ∧
+    (runOracle orc (matchesExec env (mh :: rest) st) 0 []).1.2 = true ∧
+    (runOracle orc (matchesExec env (mh :: rest) st) 0 []).2 = (runOracle orc (matchesExec env (mh :: rest') st) 0 []).2 :=
+  have he := Proofs.execOne_bad_child env mh st orc hty hb
+  ⟨he, Proofs.error_stops_list env mh rest rest' st orc he⟩
+
+/-- Non-vacuity: `exec "x"` whose child exits with status 1 (wait status 256): the trace is open /dev/null, fork, waitpid,
+close; it is a `BadChild` trace; the theorem applies. -/
+example (st : ExecSt) :
+    let orc : Nat → Call → Res := fun i _ => if i == 2 then .ok 256 else .ok 3
+    let mh : Match := { ty := .exec, lno := 1, part := 0, argv := [[120]] }
+    (runOracle orc (execOne Proofs.StdinExample.env0 mh st) 0 []).2 =
+      [(.openPath (ofString "/dev/null"), .ok 3), (.fork, .ok 3), (.waitpid, .ok 256), (.close 3, .ok 3)] ∧
+    Proofs.BadChild (runOracle orc (execOne Proofs.StdinExample.env0 mh st) 0 []).2 ∧
+    (runOracle orc (execOne Proofs.StdinExample.env0 mh st) 0 []).1.2 = true := by
+  intro orc mh
+  have htr : (runOracle orc (execOne Proofs.StdinExample.env0 mh st) 0 []).2 =
+      [(.openPath (ofString "/dev/null"), .ok 3), (.fork, .ok 3), (.waitpid, .ok 256), (.close 3, .ok 3)] := rfl
+  have hb : Proofs.BadChild (runOracle orc (execOne Proofs.StdinExample.env0 mh st) 0 []).2 := by
+    rw [htr]
+    refine .inr ⟨.ok 256, by simp, ?_⟩
+    intro s hs
+    cases hs
+    decide
+  exact ⟨htr, hb, (C04_exec_status_is_error _ mh [] [] st orc rfl hb).1⟩
+
+/-- **A `command` condition that cannot be run is an error, not "no match".**  When /dev/null cannot be opened, `fork` or
+`waitpid` fails, or the child exits with 127 (its `execvp` failed), the condition evaluates to ERROR - the verdict
+`C04_message_error_iff` turns into the error flag of the run - and the match list is untouched.  (Hypothesis `hrc`: the
+environment's command oracle is `exec()`, see `C13_status`; in `Model.processMessage` the oracle is still the constant -1,
+DESIGN 9.4.) -/
+theorem C04_command_failure_is_error (env : Env) (root : Msg) (lno : Nat) (argv av : List Bytes) (part : Nat) (m : Msg) (st : St)
+    (hav : argv.mapM (interpolate st.ml none) = some av)
+    (d : Bool) (f w : Res) (hrc : env.command av = Model.execValue d f w)
+    (h : Proofs.childOutcome d f w = .cannotRun ∨ Proofs.childOutcome d f w = .waited (.exited 127)) :
+    eval env root (.command lno argv) part m st = (.error, st) := by
+  rw [Proofs.eval_command, hav]
+  simp only [hrc, Proofs.execValue_outcome, Proofs.commandTri_outcome]
+  rw [(Proofs.outcomeTri_error_iff _).2 h]
+
+/-- Non-vacuity: the child's `execvp` failed (exit 127, wait status 127 * 256); `fork` failed. -/
+example :
+    Proofs.childOutcome true (.ok 7) (.ok (127 * 256)) = .waited (.exited 127) ∧
+    Proofs.childOutcome true (.err "EAGAIN") (.ok 0) = .cannotRun := by decide
+
+/-! ### Death by a signal of a `command` condition: what the code does (candidate finding, not claimed)
+
+The anchor of C04 says "127 and signals are errors".  For `exec` actions that is `C04_exec_status_is_error`.  For `command`
+conditions the unchanged code makes death by a signal "no match" (`exec()` returns 128 + signal > 0, `expr_eval_command` only
+treats negative values as errors): the reading below is FALSE of the model, and of the binary (tools/cmdstatus.py pins it,
+design-notes/pkg-ce5.md has the reproduction). -/
+
+/-- The reading "a `command` condition whose program is killed by a signal is an error". -/
+def C04_command_signal_is_error : Prop :=
+  ∀ (env : Env) (root : Msg) (lno : Nat) (argv av : List Bytes) (part : Nat) (m : Msg) (st : St) (pid s g : Nat),
+    argv.mapM (interpolate st.ml none) = some av → Proofs.waitKind s = .signaled g →
+    env.command av = Model.execValue true (.ok pid) (.ok s) →
+    (eval env root (.command lno argv) part m st).1 = .error
+
+/-- An environment whose command oracle is `exec()` on a child killed by SIGSEGV (wait status 11). -/
+def segvCommandEnv : Env where
+  rx := fun _ _ => .nomatch
+  command := fun _ => Model.execValue true (.ok 7) (.ok 11)
+  isDir := fun _ => false
+  now := 0
+  strptime := fun _ => none
+  zoneName := fun _ => none
+  fileTime := fun _ => none
+  dryrun := false
+  path := []
+
+/-- It does not hold: `command "x"` whose program dies of SIGSEGV evaluates to "no match". -/
+theorem C04_command_signal_is_error_false : ¬ C04_command_signal_is_error := by
+  intro h
+  have h1 := h segvCommandEnv (parseMessage []) 1 [[120]] [[120]] 0 (parseMessage []) { ml := [], flags := ⟨0, 0⟩ } 7 11 11
+    (by decide +kernel) (by decide) rfl
+  rw [Proofs.eval_command] at h1
+  revert h1
+  decide +kernel
 
 /-! ## Evaluation errors caused by the operating system
 
@@ -270,13 +599,13 @@ returned NULL (file-time `date`).  `isdirectory` has no failing answer: a path t
 wherever the condition stands in it (inside `and` / `or` / `!` / nested blocks / `attachment`), whatever the other
 calls return: if in the run of `evalP` the answer to question number `k` is a failure, the value is *error* and no
 further question is asked (`EXPR_ERROR` is passed up through every `expr_eval_*`). -/
-theorem C04_evaluation_failure_is_error (env : Env) (tf : Int → Option Bytes) (e : Expr) (m : Msg) (fl : MFlags)
+theorem C04_evaluation_failure_is_error (env : Env) (e : Expr) (m : Msg) (fl : MFlags)
     (orcl : Nat → Call → Res) (i : Nat) (k : Nat) (q : Req) (a : SysAns)
-    (hq : (evalR env tf e m fl ((evalTop env tf e m fl).answers orcl i)).2[k]? = some q)
-    (ha : ((evalTop env tf e m fl).answers orcl i)[k]? = some a) (hF : Proofs.FailAns tf q a) :
-    (Proofs.Own.runO orcl (evalP env tf e m fl) i).1.1 = .error ∧
-    (evalR env tf e m fl ((evalTop env tf e m fl).answers orcl i)).2.length = k + 1 :=
-  Proofs.evalP_error_of_fail env tf e m fl orcl i k q a hq ha hF
+    (hq : (evalR env e m fl ((evalTop env e m fl).answers orcl i)).2[k]? = some q)
+    (ha : ((evalTop env e m fl).answers orcl i)[k]? = some a) (hF : Proofs.FailAns env.timeFormat q a) :
+    (Proofs.Own.runO orcl (evalP env e m fl) i).1.1 = .error ∧
+    (evalR env e m fl ((evalTop env e m fl).answers orcl i)).2.length = k + 1 :=
+  Proofs.evalP_error_of_fail env e m fl orcl i k q a hq ha hF
 
 /-- Non-vacuity: `match command "t" or all move "/d"` when `fork` fails: one question, a failing answer. -/
 example :
@@ -284,27 +613,41 @@ example :
     let env := Proofs.msgEnv Proofs.examplePEnv Proofs.exampleOracles [47, 109, 47, 110, 101, 119, 47, 49]
     let m := parseMessage [83, 117, 98, 106, 101, 99, 116, 58, 32, 120, 10, 10, 98, 10]
     let orcl : Nat → Call → Res := fun _ c => match c with | .fork => .err "EAGAIN" | _ => .ok 0
-    (evalTop env (fun _ => none) e m MFlags.empty).answers orcl 0 = [.status (-1)] ∧
-    (evalR env (fun _ => none) e m MFlags.empty [.status (-1)]).2 = [.command [[116]]] ∧
-    Proofs.FailAns (fun _ => none) (.command [[116]]) (.status (-1)) ∧
-    (Proofs.Own.runO orcl (evalP env (fun _ => none) e m MFlags.empty) 0).1.1 = .error := by
+    (evalTop env e m MFlags.empty).answers orcl 0 = [.status (-1)] ∧
+    (evalR env e m MFlags.empty [.status (-1)]).2 = [.command [[116]]] ∧
+    Proofs.FailAns env.timeFormat (.command [[116]]) (.status (-1)) ∧
+    (Proofs.Own.runO orcl (evalP env e m MFlags.empty) 0).1.1 = .error := by
   simp only [evalP, evalR, evalTop, evalT, eval]
   refine ⟨by decide +kernel, by decide +kernel, ?_, by decide +kernel⟩
   show ((-1 : Int) < 0)
   decide
 
 /-- **Which call results make a `command` condition fail**: its answer is the value of util.c `exec(argv, -1)` on the
-results of `open("/dev/null")`, `fork`, `waitpid` (`Proofs.execValue`), and that value is negative exactly when
-`/dev/null` cannot be opened, `fork` fails, `waitpid` fails, or the child exited with status 127 (`execvp` failed).
-Every other status - 0, another exit code, death by a signal - is match / no match, not an error. -/
+results of `open("/dev/null")`, `fork`, `waitpid` (`Model.execValue`), and that value is negative exactly when the child
+could not be run (`Proofs.childOutcome … = .cannotRun`: `/dev/null` cannot be opened, `fork` fails, `waitpid` fails -
+`C13_child_outcome`) or exited with status 127 (`execvp` failed).  Every other status - 0, another exit code, death by
+a signal - is match / no match, not an error (`C13_command_status`). -/
 theorem C04_command_failure_causes (av : List Bytes) (orcl : Nat → Call → Res) (j : Nat) :
     (Proofs.Own.runO orcl (sysCall (.command av)) j).1 =
       .status (match orcl j (.openPath (ofString "/dev/null")) with
-        | .ok _ => Proofs.execValue true (orcl (j + 1) .fork) (orcl (j + 2) .waitpid)
-        | _ => Proofs.execValue false (orcl (j + 1) .fork) (orcl (j + 2) .waitpid)) ∧
-    ∀ (d : Bool) (f w : Res), Proofs.execValue d f w < 0 ↔
-      d = false ∨ (∀ v, f ≠ .ok v) ∨ (∀ s, w ≠ .ok s) ∨ ∃ s, w = .ok s ∧ s % 128 = 0 ∧ (s / 256) % 256 = 127 :=
+        | .ok _ => Model.execValue true (orcl (j + 1) .fork) (orcl (j + 2) .waitpid)
+        | _ => Model.execValue false (orcl (j + 1) .fork) (orcl (j + 2) .waitpid)) ∧
+    ∀ (d : Bool) (f w : Res), Model.execValue d f w < 0 ↔
+      Proofs.childOutcome d f w = .cannotRun ∨ Proofs.childOutcome d f w = .waited (.exited 127) :=
   ⟨Proofs.sysCall_command_value av orcl j, Proofs.execValue_neg_iff⟩
+
+/-- **`C04_command_failure_is_error` inside the run** (its corollary through `Proofs.evalT_command_run`: the oracle of the
+evaluator-level statement IS `exec()` on the results of the three calls of this run): a `command` condition evaluated at
+step `j` of a run in which `/dev/null` cannot be opened, `fork` or `waitpid` fails, or the child exits with 127, evaluates to
+ERROR and leaves the match list as it was. -/
+theorem C04_command_failure_is_error_run (env : Env) (root : Msg) (lno : Nat) (argv av : List Bytes) (part : Nat) (m : Msg)
+    (st : St) (hav : argv.mapM (interpolate st.ml none) = some av) (orcl : Nat → Call → Res) (j : Nat)
+    (h : let o := Proofs.childOutcome (match orcl j (.openPath (ofString "/dev/null")) with | .ok _ => true | _ => false)
+            (orcl (j + 1) .fork) (orcl (j + 2) .waitpid)
+         o = .cannotRun ∨ o = .waited (.exited 127)) :
+    (Proofs.Own.runO orcl (evalT env root (.command lno argv) part m st).toProg j).1 = (.error, st) := by
+  rw [Proofs.evalT_command_run]
+  exact C04_command_failure_is_error _ root lno argv av part m st hav _ _ _ rfl h
 
 /-- **A failing `stat` of the message's path makes a file-time `date` condition fail**: the answer to the question is
 what `stat` returned, and a `stat` that does not succeed (`EACCES`, `EIO`, `ENOENT`: the message was removed meanwhile)
